@@ -54,13 +54,13 @@ class Pchain(EventPattern):
         streams = [stm.stream(p) for p in reversed(self.patterns)]
         try:
             while True:
-                inevent = inevent.copy()
+                event = inevent.copy()
                 for stream in streams:
-                    inevent = stream.next(inevent)
-                inevent = yield inevent
+                    event = stream.next(event)
+                inevent = yield event
         except stm.StopStream:
             pass
-        return inevent
+        return inevent  # Not the partially composed event.
 
     # storeOn
 
